@@ -172,8 +172,8 @@ func (h *seqHist) opSet() {
 		h.Ops = append(h.Ops, fmt.Sprintf("Set(%d,%c/%d)", row.Start+k, l, q))
 		h.x.(seq.Sequence).Set(row.Start+k, ql)
 	case h.m.colStored():
-		h.Ops = append(h.Ops, fmt.Sprintf("Row(%d).Set(%d,%c/%d)", ri, k, l, q))
-		h.rower().Row(ri).Set(k, ql)
+		h.Ops = append(h.Ops, fmt.Sprintf("Row(%d).Set(%d,%c/%d)", ri, h.m.Off+k, l, q))
+		h.rower().Row(ri).Set(h.m.Off+k, ql) // the rows of a column-stored alignment are addressed in the alignment's frame
 	default:
 		h.Ops = append(h.Ops, fmt.Sprintf("Row(%d).Set(%d,%c/%d)", ri, row.Start+k, l, q))
 		h.rower().Row(ri).Set(row.Start+k, ql)
@@ -227,6 +227,18 @@ func (h *seqHist) opRowClone() {
 		h.fail("clone-not-independent", fmt.Sprintf("Row(%d).Clone carries letters %q qualities %v, the row holds %q %v", ri, l, []byte(q), row.L, row.Q))
 		return
 	}
+	// a copy of the row is the row's sequence: its name and its alphabet (for a row of a row-stored container, a sequence
+	// in its own right, its placement and strand too; the handle of a column-stored row builds a fresh sequence from the
+	// letters, and where that sits is not judged)
+	if c.Name() != row.Name || c.Alphabet() != h.m.alpha() {
+		h.fail("clone-differs", fmt.Sprintf("Row(%d).Clone is named %q over alphabet %q, the row is %q over %q", ri, c.Name(), alphaLetters(c.Alphabet()), row.Name, alphaLetters(h.m.alpha())))
+		return
+	}
+	if !h.m.colStored() && (c.Start() != row.Start || strandOf(c) != row.Strand) {
+		h.fail("clone-differs", fmt.Sprintf("Row(%d).Clone starts at %d on strand %d, the row at %d on strand %d", ri, c.Start(), strandOf(c), row.Start, row.Strand))
+		return
+	}
+	h.r.Count("row_clone_name_alphabet_compared", 1)
 	// the copy is a sequence of its own: it reverse-complements (or reverses) like any other
 	if rc, isRC := c.(interface{ RevComp() }); isRC && h.r.Rng.Intn(2) == 0 {
 		comp := h.r.Rng.Intn(3) != 0
@@ -265,6 +277,46 @@ func (h *seqHist) opRowSetOffset() {
 	h.r.Count("op_row_setoffset", 1)
 }
 
+// opMultiSetOffset moves a whole row-stored alignment. The alignment is the placement of the rows against each other,
+// so every row must move by the same amount and keep its letters. The amount: the new offset less the one the container
+// has recorded so far (0 for a fresh container, whatever its rows' offsets; carried by Clone and Subseq) - or, for a
+// reading in which the offset is where the alignment starts, the new offset less the old Start(): either is accepted.
+// Asking for the same offset again right away changes nothing under both readings.
+func (h *seqHist) opMultiSetOffset() {
+	if !h.m.isMulti() {
+		return
+	}
+	mm := h.x.(*multi.Multi)
+	o := h.r.Rng.Intn(41) - 20
+	h.Ops = append(h.Ops, fmt.Sprintf("SetOffset(%d)", o))
+	S, _ := h.m.span()
+	before := make([]int, mm.Rows())
+	for i := range before {
+		before[i] = mm.Row(i).Start()
+	}
+	if err := mm.SetOffset(o); err != nil {
+		h.fail("setoffset", "Multi.SetOffset returned "+err.Error())
+		return
+	}
+	d := o - h.m.Off
+	if mm.Rows() == len(h.m.Rows) && mm.Row(0).Start()-before[0] == o-S {
+		d = o - S
+	}
+	for i := range h.m.Rows {
+		h.m.Rows[i].Start += d
+	}
+	h.m.Off = o
+	h.r.Count("op_multi_setoffset", 1)
+	if d != 0 {
+		h.r.Count("multi_setoffset_moved_rows", 1)
+	}
+	if h.r.Rng.Intn(3) == 0 { // the state comparison after this operation then sees any further movement
+		h.Ops[len(h.Ops)-1] += fmt.Sprintf("; SetOffset(%d) again", o)
+		mm.SetOffset(o)
+		h.r.Count("multi_setoffset_repeated", 1)
+	}
+}
+
 // ---- C07 edit operations ----
 
 func (h *seqHist) genQL(n int) ([]alphabet.QLetter, []byte, []byte) {
@@ -285,6 +337,26 @@ func scribble(bufs [][]alphabet.QLetter) {
 			b[i] = alphabet.QLetter{L: '!', Q: 1}
 		}
 	}
+}
+
+// carve re-cuts the given slices from one buffer, one behind the other with 0..2 unused elements after each, and hands them
+// back without a capacity limit: each then has the following ones (the other rows' letters) in its spare capacity, the
+// way runs sliced out of one read buffer do. The whole buffer is returned for overwriting after the call.
+func (h *seqHist) carve(bufs [][]alphabet.QLetter) []alphabet.QLetter {
+	var flat []alphabet.QLetter
+	at := make([]int, len(bufs))
+	for i, b := range bufs {
+		at[i] = len(flat)
+		flat = append(flat, b...)
+		for k := h.r.Rng.Intn(3); k > 0; k-- {
+			flat = append(flat, alphabet.QLetter{L: '!', Q: 1})
+		}
+	}
+	for i, b := range bufs {
+		bufs[i] = flat[at[i] : at[i]+len(b)]
+	}
+	h.r.Count("appends_from_one_shared_buffer", 1)
+	return flat
 }
 
 func (h *seqHist) appendToRow(ri int, l, q []byte) {
@@ -310,11 +382,17 @@ func (h *seqHist) opAppendColumns() {
 		}
 	}
 	h.Ops = append(h.Ops, fmt.Sprintf("AppendColumns(%s) then overwrite the buffers", strings.Join(desc, ",")))
+	var flat []alphabet.QLetter
+	if rng.Intn(3) == 0 {
+		flat = h.carve(cols)
+		h.Ops[len(h.Ops)-1] += " (columns cut from one buffer)"
+	}
 	if err := h.x.(seq.AlignedAppender).AppendColumns(cols...); err != nil {
 		h.fail("append-error", "AppendColumns returned "+err.Error())
 		return
 	}
 	scribble(cols)
+	scribble([][]alphabet.QLetter{flat[:cap(flat)]})
 	for ri := 0; ri < nr; ri++ {
 		h.appendToRow(ri, add[ri][0], add[ri][1])
 	}
@@ -331,19 +409,34 @@ func (h *seqHist) opAppendEach() {
 	max := 0
 	var desc []string
 	for ri := 0; ri < nr; ri++ {
-		n := rng.Intn(5)
-		runs[ri], ls[ri], qs[ri] = h.genQL(n)
-		if n > max {
-			max = n
+		runs[ri], ls[ri], qs[ri] = h.genQL(rng.Intn(5))
+	}
+	var flat []alphabet.QLetter
+	how := ""
+	if rng.Intn(3) == 0 {
+		flat = h.carve(runs)
+		how = " (runs cut from one buffer)"
+	}
+	if nr > 1 && rng.Intn(8) == 0 { // the very same run handed over for two rows
+		i, j := rng.Intn(nr), rng.Intn(nr)
+		runs[j], ls[j], qs[j] = runs[i], ls[i], qs[i]
+		if i != j {
+			h.r.Count("append_each_same_run_for_two_rows", 1)
+		}
+	}
+	for ri := 0; ri < nr; ri++ {
+		if len(ls[ri]) > max {
+			max = len(ls[ri])
 		}
 		desc = append(desc, string(ls[ri]))
 	}
-	h.Ops = append(h.Ops, fmt.Sprintf("AppendEach(%q) then overwrite the buffers", desc))
+	h.Ops = append(h.Ops, fmt.Sprintf("AppendEach(%q) then overwrite the buffers%s", desc, how))
 	if err := h.x.(seq.RowAppender).AppendEach(runs); err != nil {
 		h.fail("append-error", "AppendEach returned "+err.Error())
 		return
 	}
 	scribble(runs)
+	scribble([][]alphabet.QLetter{flat[:cap(flat)]})
 	gap := byte(h.m.alpha().Gap())
 	unequal := false
 	for ri := 0; ri < nr; ri++ {
@@ -391,11 +484,19 @@ func (h *seqHist) opAdd() {
 			// a sequence that may be shorter or longer than the alignment: clipped / gap filled
 			st := 0
 			n := E
-			switch rng.Intn(4) {
+			switch rng.Intn(5) {
 			case 0:
 				st, n = rng.Intn(3), rng.Intn(E+3)
 			case 1:
 				n = E + rng.Intn(4)
+			case 2: // starting before the alignment, overhanging either or both ends, or wholly outside it
+				st, n = rng.Intn(2*E+8)-E-4, rng.Intn(2*E+6)
+				switch {
+				case st+n <= 0 || st >= E:
+					h.r.Count("add_rows_wholly_outside_the_alignment", 1)
+				case st < 0:
+					h.r.Count("add_rows_clipped_on_the_left", 1)
+				}
 			}
 			_, l, q := h.genQL(n)
 			src := mRow{L: l, Q: q, Start: st, Strand: 1, Name: name}
@@ -454,6 +555,12 @@ func (h *seqHist) opFlush() {
 	}
 	h.Ops = append(h.Ops, fmt.Sprintf("Flush(%d,%c)", where, fill))
 	h.x.(*multi.Multi).Flush(where, alphabet.Letter(fill))
+	// "so that all rows span the alignment", in the container's own words: the end(s) just flushed are flush
+	if !h.x.(*multi.Multi).IsFlush(where) {
+		h.fail("views-differ", fmt.Sprintf("IsFlush(%d) is false right after Flush(%d, %c)", where, where, fill))
+		return
+	}
+	h.r.Count("isflush_asked_after_flush", 1)
 	S, E := h.m.span()
 	ragged := false
 	for i := range h.m.Rows {
@@ -601,7 +708,7 @@ func (h *seqHist) checkConsensus() {
 		for i, r := range h.m.Rows {
 			st := r.Start
 			if h.m.colStored() {
-				st = 0
+				st = h.m.Off
 			}
 			if p < st || p >= st+len(r.L) || (h.m.Kind == "aqseq" && r.Q[p-st] < qThreshold) {
 				uniform = false
@@ -619,6 +726,9 @@ func (h *seqHist) checkConsensus() {
 		}
 		got := seq.DefaultConsensus(a, al, p, true)
 		h.r.Count("uniform_columns_consensus_checked", 1)
+		if al.IsCased() || al.Len() > 16 {
+			h.r.Count("uniform_columns_in_case_sensitive_or_protein_alphabets", 1)
+		}
 		if strings.ToLower(string([]byte{byte(got.L)})) != strings.ToLower(string([]byte{l})) {
 			h.fail("consensus", fmt.Sprintf("column %d holds %q in every row but DefaultConsensus gives %q", p, l, byte(got.L)))
 			return
